@@ -391,6 +391,11 @@ class ShiftConstantFolding(RewritePattern, Generic[IWidth]):
             rewriter.replace(op, self.li_op_type(result, rd=rd))
 
 
+def _fits_in_si12(offset: int) -> bool:
+    """Whether the offset can be encoded in the 12-bit signed immediate of a load/store."""
+    return -2048 <= offset < 2048
+
+
 class LoadWordWithKnownOffset(RewritePattern):
     @op_type_rewrite_pattern
     def match_and_rewrite(self, op: riscv.LwOp, rewriter: PatternRewriter) -> None:
@@ -399,6 +404,9 @@ class LoadWordWithKnownOffset(RewritePattern):
             and isinstance(op.rs1.op, riscv.AddiOp)
             and isinstance(op.rs1.op.immediate, IntegerAttr)
             and isinstance(op.immediate, IntegerAttr)
+            and _fits_in_si12(
+                op.rs1.op.immediate.value.data + op.immediate.value.data
+            )
         ):
             rd = op.rd.type
             rewriter.replace(
@@ -419,6 +427,10 @@ class StoreWordWithKnownOffset(RewritePattern):
             isinstance(op.rs1, OpResult)
             and isinstance(op.rs1.op, riscv.AddiOp)
             and isinstance(op.rs1.op.immediate, IntegerAttr)
+            and isinstance(op.immediate, IntegerAttr)
+            and _fits_in_si12(
+                op.rs1.op.immediate.value.data + op.immediate.value.data
+            )
         ):
             rewriter.replace(
                 op,
@@ -439,6 +451,9 @@ class LoadFloatWordWithKnownOffset(RewritePattern):
             and isinstance(op.rs1.op, riscv.AddiOp)
             and isinstance(op.rs1.op.immediate, IntegerAttr)
             and isinstance(op.immediate, IntegerAttr)
+            and _fits_in_si12(
+                op.rs1.op.immediate.value.data + op.immediate.value.data
+            )
         ):
             rd = op.rd.type
             rewriter.replace(
@@ -459,6 +474,10 @@ class StoreFloatWordWithKnownOffset(RewritePattern):
             isinstance(op.rs1, OpResult)
             and isinstance(op.rs1.op, riscv.AddiOp)
             and isinstance(op.rs1.op.immediate, IntegerAttr)
+            and isinstance(op.immediate, IntegerAttr)
+            and _fits_in_si12(
+                op.rs1.op.immediate.value.data + op.immediate.value.data
+            )
         ):
             rewriter.replace(
                 op,
@@ -479,6 +498,9 @@ class LoadDoubleWithKnownOffset(RewritePattern):
             and isinstance(op.rs1.op, riscv.AddiOp)
             and isinstance(op.rs1.op.immediate, IntegerAttr)
             and isinstance(op.immediate, IntegerAttr)
+            and _fits_in_si12(
+                op.rs1.op.immediate.value.data + op.immediate.value.data
+            )
         ):
             rd = op.rd.type
             rewriter.replace(
@@ -499,6 +521,10 @@ class StoreDoubleWithKnownOffset(RewritePattern):
             isinstance(op.rs1, OpResult)
             and isinstance(op.rs1.op, riscv.AddiOp)
             and isinstance(op.rs1.op.immediate, IntegerAttr)
+            and isinstance(op.immediate, IntegerAttr)
+            and _fits_in_si12(
+                op.rs1.op.immediate.value.data + op.immediate.value.data
+            )
         ):
             rewriter.replace(
                 op,
